@@ -198,8 +198,11 @@ func newGlueWorld() *glueWorld {
 		if sl, err = net.Listen("tcp", "127.0.0.1:5140"); err == nil {
 			break
 		}
-		if try > 1800 {
-			panic("c11 glue: cannot serve the export endpoint 127.0.0.1:5140: " + err.Error())
+		inUse := strings.Contains(err.Error(), "address already in use")
+		if (!inUse && try > 20) || try > 800 {
+			// in our own namespace the port is free: anything else is a broken namespace - let the parent retry
+			fmt.Fprintln(os.Stderr, "c11 glue child: cannot serve the export endpoint 127.0.0.1:5140:", err)
+			os.Exit(4)
 		}
 		time.Sleep(100 * time.Millisecond)
 	}
@@ -627,123 +630,286 @@ func glueChildMain() {
 }
 
 // ------------------------------------------------------------------ parent side
+//
+// Robustness contract: a child that cannot be started, or that dies, is first of all an ENVIRONMENT
+// problem (port held by another check, CPU starvation, namespace limits): it is restarted (bounded
+// retries with back-off) and the case is run again on the fresh child.  Only a child that dies twice on
+// the SAME case counts as the implementation taking the harness down (answers `panic …` for that case
+// only; the next case gets a fresh child).  If no child can be brought up within the time budget the
+// harness exits with status 3 (machinery failure, never a property verdict).
 
 type glueClient struct {
-	mu   sync.Mutex
-	cmd  *exec.Cmd
-	in   io.WriteCloser
-	out  *bufio.Reader
-	root string
+	cmd    *exec.Cmd
+	in     io.WriteCloser
+	lines  chan string // stdout lines of the child; closed when the child's stdout ends
+	root   string
+	stderr *tailBuf
+	netns  bool
+}
+
+// tailBuf keeps the last bytes the child wrote to stderr (shown when it dies).
+type tailBuf struct {
+	mu  sync.Mutex
+	buf []byte
+}
+
+func (t *tailBuf) Write(p []byte) (int, error) {
+	t.mu.Lock()
+	t.buf = append(t.buf, p...)
+	if len(t.buf) > 8192 {
+		t.buf = t.buf[len(t.buf)-8192:]
+	}
+	t.mu.Unlock()
+	return len(p), nil
+}
+
+func (t *tailBuf) String() string {
+	t.mu.Lock()
+	defer t.mu.Unlock()
+	return string(t.buf)
 }
 
 var (
-	glueOnce sync.Once
-	glue     *glueClient
+	glueMu       sync.Mutex
+	glue         *glueClient
+	glueNoNetns  bool // CLONE_NEWNET is not available here: do not try again
+	glueRestarts int
 )
 
-func getGlue() *glueClient {
-	glueOnce.Do(func() {
-		root, err := os.MkdirTemp("", "verif-c11-glue-")
-		must(err)
-		repo := os.Getenv("VERIF_REPO")
-		if repo == "" {
-			repo = "/repo"
-		}
-		def, err := os.ReadFile(filepath.Join(repo, "proxy", "metrics.yaml"))
-		must(err)
-		must(os.WriteFile(filepath.Join(root, "metrics-default.yaml"), def, 0o644))
-		must(os.WriteFile(filepath.Join(root, "discovery.json"), []byte("{}"), 0o644))
-		self, err := os.Executable()
-		must(err)
-		var env []string
-		for _, e := range os.Environ() {
-			if strings.HasPrefix(e, "HAPROXY_MANAGE_ENDPOINTS_PORT=") || strings.HasPrefix(e, "LUNAR_STREAMS_ENABLED=") {
-				continue
-			}
-			env = append(env, e)
-		}
-		env = append(env,
-			glueChildEnv+"=1", glueRootEnv+"="+root,
-			"LUNAR_STREAMS_ENABLED=false",
-			"HAPROXY_MANAGE_ENDPOINTS_PORT="+freePort(),
-			"LUNAR_HEALTHCHECK_PORT="+freePort(),
-			"LUNAR_PROXY_POLICIES_CONFIG="+filepath.Join(root, "policies.yaml"),
-			"LUNAR_PROXY_CONFIG_DIR="+root,
-			"LUNAR_PROXY_METRICS_CONFIG="+filepath.Join(root, "metrics-user.yaml"),
-			"LUNAR_PROXY_METRICS_CONFIG_DEFAULT="+filepath.Join(root, "metrics-default.yaml"),
-			"DISCOVERY_STATE_LOCATION="+filepath.Join(root, "discovery.json"),
-			"REMEDY_STATE_LOCATION="+filepath.Join(root, "remedy.json"),
-			"LUNAR_FLOWS_PATH_PARAM_CONFIG="+filepath.Join(root, "gen-policies.yaml"),
-			"LUNAR_HUB_URL=", "LUNAR_API_KEY=", "TENANT_NAME=verif",
-			// the diagnosis fail-safe watcher is constructed by initializePolicies; it then sleeps on the frozen mock clock
-			"DIAGNOSIS_FAILSAFE_MIN_SEC_BETWEEN_CALLS=30", "DIAGNOSIS_FAILSAFE_CONSECUTIVE_N=3",
-			"DIAGNOSIS_FAILSAFE_MIN_STABLE_SEC=60", "DIAGNOSIS_FAILSAFE_COOLDOWN_SEC=60",
-			"DIAGNOSIS_FAILSAFE_HEALTHY_SESSION_RATE=0", "DIAGNOSIS_FAILSAFE_HEALTHY_MAX_LAST_SESSION_SEC=30",
-		)
-		// own network namespace: the engine's export endpoint 127.0.0.1:5140 is hard-coded and other checks'
-		// harnesses listen on it too; without the privilege fall back to sharing the host's loopback
-		var cmd *exec.Cmd
-		var in io.WriteCloser
-		var outp io.ReadCloser
-		for _, netns := range []bool{true, false} {
-			cmd = exec.Command(self)
-			cmd.Env = env
-			if netns {
-				cmd.Env = append(append([]string{}, env...), glueNetnsEnv+"=1")
-				cmd.SysProcAttr = &syscall.SysProcAttr{Cloneflags: syscall.CLONE_NEWNET}
-			}
-			cmd.Dir = root
-			cmd.Stderr = os.Stderr
-			in, err = cmd.StdinPipe()
-			must(err)
-			outp, err = cmd.StdoutPipe()
-			must(err)
-			if err = cmd.Start(); err == nil {
-				break
-			}
-		}
-		must(err)
-		g := &glueClient{cmd: cmd, in: in, out: bufio.NewReaderSize(outp, 1<<20), root: root}
-		line, err := g.out.ReadString('\n')
-		if err != nil || strings.TrimSpace(line) != "ready" {
-			panic("c11 glue: child did not come up: " + line)
-		}
-		glue = g
-	})
-	return glue
+const (
+	glueStartBudget = 90 * time.Second  // total time to bring a child up (incl. waiting for port 5140 without netns)
+	glueReadyWait   = 45 * time.Second  // one attempt
+	glueCaseWait    = 120 * time.Second // one case on a live child (a stalled collect waits up to 3 s per diag)
+)
+
+func glueLog(format string, a ...any) {
+	fmt.Fprintf(os.Stderr, "c11 glue: "+format+"\n", a...)
 }
 
-func (g *glueClient) exec(ops []string) []string {
-	g.mu.Lock()
-	defer g.mu.Unlock()
+func startGlueChild(netns bool) (*glueClient, error) {
+	root, err := os.MkdirTemp("", "verif-c11-glue-")
+	if err != nil {
+		return nil, err
+	}
+	fail := func(err error) (*glueClient, error) { os.RemoveAll(root); return nil, err }
+	repo := os.Getenv("VERIF_REPO")
+	if repo == "" {
+		repo = "/repo"
+	}
+	def, err := os.ReadFile(filepath.Join(repo, "proxy", "metrics.yaml"))
+	if err != nil {
+		return fail(err)
+	}
+	if err := os.WriteFile(filepath.Join(root, "metrics-default.yaml"), def, 0o644); err != nil {
+		return fail(err)
+	}
+	if err := os.WriteFile(filepath.Join(root, "discovery.json"), []byte("{}"), 0o644); err != nil {
+		return fail(err)
+	}
+	self, err := os.Executable()
+	if err != nil {
+		return fail(err)
+	}
+	var env []string
+	for _, e := range os.Environ() {
+		if strings.HasPrefix(e, "HAPROXY_MANAGE_ENDPOINTS_PORT=") || strings.HasPrefix(e, "LUNAR_STREAMS_ENABLED=") {
+			continue
+		}
+		env = append(env, e)
+	}
+	env = append(env,
+		glueChildEnv+"=1", glueRootEnv+"="+root,
+		"LUNAR_STREAMS_ENABLED=false",
+		"HAPROXY_MANAGE_ENDPOINTS_PORT="+freePort(),
+		"LUNAR_HEALTHCHECK_PORT="+freePort(),
+		"LUNAR_PROXY_POLICIES_CONFIG="+filepath.Join(root, "policies.yaml"),
+		"LUNAR_PROXY_CONFIG_DIR="+root,
+		"LUNAR_PROXY_METRICS_CONFIG="+filepath.Join(root, "metrics-user.yaml"),
+		"LUNAR_PROXY_METRICS_CONFIG_DEFAULT="+filepath.Join(root, "metrics-default.yaml"),
+		"DISCOVERY_STATE_LOCATION="+filepath.Join(root, "discovery.json"),
+		"REMEDY_STATE_LOCATION="+filepath.Join(root, "remedy.json"),
+		"LUNAR_FLOWS_PATH_PARAM_CONFIG="+filepath.Join(root, "gen-policies.yaml"),
+		"LUNAR_HUB_URL=", "LUNAR_API_KEY=", "TENANT_NAME=verif",
+		// the diagnosis fail-safe watcher is constructed by initializePolicies; it then sleeps on the frozen mock clock
+		"DIAGNOSIS_FAILSAFE_MIN_SEC_BETWEEN_CALLS=30", "DIAGNOSIS_FAILSAFE_CONSECUTIVE_N=3",
+		"DIAGNOSIS_FAILSAFE_MIN_STABLE_SEC=60", "DIAGNOSIS_FAILSAFE_COOLDOWN_SEC=60",
+		"DIAGNOSIS_FAILSAFE_HEALTHY_SESSION_RATE=0", "DIAGNOSIS_FAILSAFE_HEALTHY_MAX_LAST_SESSION_SEC=30",
+	)
+	cmd := exec.Command(self)
+	cmd.Env = env
+	if netns {
+		// own network namespace: the engine's export endpoint 127.0.0.1:5140 is hard-coded and other checks'
+		// harnesses listen on it too
+		cmd.Env = append(cmd.Env, glueNetnsEnv+"=1")
+		cmd.SysProcAttr = &syscall.SysProcAttr{Cloneflags: syscall.CLONE_NEWNET}
+	}
+	cmd.Dir = root
+	tb := &tailBuf{}
+	cmd.Stderr = tb
+	in, err := cmd.StdinPipe()
+	if err != nil {
+		return fail(err)
+	}
+	outp, err := cmd.StdoutPipe()
+	if err != nil {
+		return fail(err)
+	}
+	if err := cmd.Start(); err != nil {
+		return fail(fmt.Errorf("start (netns=%v): %w", netns, err))
+	}
+	g := &glueClient{cmd: cmd, in: in, lines: make(chan string, 4096), root: root, stderr: tb, netns: netns}
+	go func() {
+		rd := bufio.NewReaderSize(outp, 1<<20)
+		for {
+			l, err := rd.ReadString('\n')
+			if len(l) > 0 && strings.HasSuffix(l, "\n") {
+				g.lines <- strings.TrimRight(l, "\n")
+			}
+			if err != nil {
+				close(g.lines)
+				return
+			}
+		}
+	}()
+	select {
+	case l, ok := <-g.lines:
+		if ok && l == "ready" {
+			return g, nil
+		}
+		g.kill()
+		return nil, fmt.Errorf("child (netns=%v) ended before it was ready: %q; stderr: %s", netns, l, lastLines(tb.String(), 6))
+	case <-time.After(glueReadyWait):
+		g.kill()
+		return nil, fmt.Errorf("child (netns=%v) not ready after %v; stderr: %s", netns, glueReadyWait, lastLines(tb.String(), 6))
+	}
+}
+
+func lastLines(s string, n int) string {
+	ls := strings.Split(strings.TrimSpace(s), "\n")
+	if len(ls) > n {
+		ls = ls[len(ls)-n:]
+	}
+	return strings.Join(ls, " | ")
+}
+
+func (g *glueClient) kill() {
+	g.in.Close()
+	if g.cmd.Process != nil {
+		g.cmd.Process.Kill()
+	}
+	go func() {
+		for range g.lines { // drain so that the reader goroutine can finish
+		}
+	}()
+	g.cmd.Wait()
+	os.RemoveAll(g.root)
+}
+
+// ensureGlue returns a live child, starting one if needed (bounded retries with back-off).
+func ensureGlue() *glueClient {
+	if glue != nil {
+		return glue
+	}
+	deadline := time.Now().Add(glueStartBudget)
+	backoff := 200 * time.Millisecond
+	var lastErr error
+	for attempt := 0; ; attempt++ {
+		netns := !glueNoNetns && attempt%3 != 2 // every third attempt without the namespace
+		g, err := startGlueChild(netns)
+		if err == nil {
+			glue = g
+			return g
+		}
+		lastErr = err
+		glueLog("cannot bring the glue child up (attempt %d): %v", attempt+1, err)
+		if netns && (strings.Contains(err.Error(), "operation not permitted") || strings.Contains(err.Error(), "no space left")) {
+			glueNoNetns = true
+		}
+		if time.Now().After(deadline) {
+			break
+		}
+		time.Sleep(backoff)
+		if backoff < 5*time.Second {
+			backoff *= 2
+		}
+	}
+	// an environment problem is never a property verdict: abort the harness (./check reports a machinery failure)
+	glueLog("giving up: %v", lastErr)
+	os.Exit(3)
+	return nil
+}
+
+// run one case on the child; an error means the child died / hung (it has been killed).
+func (g *glueClient) run(ops []string) ([]string, error) {
 	var b strings.Builder
 	fmt.Fprintf(&b, "%d\n", len(ops))
 	for _, o := range ops {
 		b.WriteString(o)
 		b.WriteByte('\n')
 	}
-	_, err := io.WriteString(g.in, b.String())
-	must(err)
+	if _, err := io.WriteString(g.in, b.String()); err != nil {
+		return nil, fmt.Errorf("write to child: %w", err)
+	}
+	outs := make([]string, len(ops))
+	timeout := time.After(glueCaseWait)
+	for i := range outs {
+		select {
+		case l, ok := <-g.lines:
+			if !ok {
+				return nil, fmt.Errorf("child died after %d of %d answers", i, len(ops))
+			}
+			outs[i] = l
+		case <-timeout:
+			return nil, fmt.Errorf("child hung (%v) after %d of %d answers", glueCaseWait, i, len(ops))
+		}
+	}
+	return outs, nil
+}
+
+// glueExec runs a glue case, restarting the child when it dies.
+func glueExec(ops []string) []string {
+	glueMu.Lock()
+	defer glueMu.Unlock()
+	var lastErr string
+	for deaths := 0; deaths < 2; deaths++ {
+		g := ensureGlue()
+		outs, err := g.run(ops)
+		if err == nil {
+			return outs
+		}
+		lastErr = fmt.Sprintf("%v; stderr: %s", err, lastLines(g.stderr.String(), 8))
+		glueLog("child lost while running a case (death %d on this case, restart %d): %s", deaths+1, glueRestarts+1, lastErr)
+		g.kill()
+		glue = nil
+		glueRestarts++
+		time.Sleep(300 * time.Millisecond)
+	}
+	// died twice on the same case: that is an observable of this case (and of this case only)
+	msg := proto.Enc("c11 glue: child died twice on this case: " + lastErr)
+	if len(msg) > 300 {
+		msg = msg[:300]
+	}
 	outs := make([]string, len(ops))
 	for i := range outs {
-		l, err := g.out.ReadString('\n')
-		if err != nil {
-			panic("c11 glue: child died: " + err.Error())
-		}
-		outs[i] = strings.TrimRight(l, "\n")
+		outs[i] = "panic " + msg
 	}
 	return outs
 }
 
-func (g *glueClient) close() {
-	g.in.Close()
-	g.cmd.Wait()
-	os.RemoveAll(g.root)
-}
-
 func closeGlue() {
+	glueMu.Lock()
+	defer glueMu.Unlock()
 	if glue != nil {
-		glue.close()
+		glue.in.Close()
+		done := make(chan struct{})
+		go func() { glue.cmd.Wait(); close(done) }()
+		select {
+		case <-done:
+		case <-time.After(5 * time.Second):
+			glue.cmd.Process.Kill()
+		}
+		os.RemoveAll(glue.root)
+		glue = nil
 	}
 }
 
